@@ -9,6 +9,13 @@ def _close(a, b):
     return abs(a - b) <= 1e-9 * max(1.0, abs(a), abs(b))
 
 
+def _same(e, g):
+    """aggregates of an Integer property (embedded values, A.EMB) are integers and compared exactly"""
+    if A.EMB[0] is not None:
+        return g is not None and not isinstance(g, bool) and g == e and (isinstance(g, int) or float(g).is_integer() and int(g) == e)
+    return _close(e, g)
+
+
 def _strip(calls, rec):
     """agents deleted or created *during* a step may or may not handle/act in that very step:
     the property speaks of live agents, so their entries are not compared"""
@@ -55,20 +62,20 @@ def cmp_stats(exp, got, types, where):
             if e["count"] == 0:
                 continue
             for k in ("total", "min", "max"):
-                if not _close(float(e[k]), g[k]):
-                    bad.append(("%s[%s][%s]@%s" % (k, ty, st, where), e[k], g[k]))
-            if not _close(e["total"] / e["count"], g.get("mean")):
-                bad.append(("mean[%s][%s]@%s" % (ty, st, where), e["total"] / e["count"], g.get("mean")))
+                if not _same(A.agg(k, e[k], e["count"]), g[k]):
+                    bad.append(("%s[%s][%s]@%s" % (k, ty, st, where), A.agg(k, e[k], e["count"]), g[k]))
+            if not _close(A.agg("total", e["total"], e["count"]) / e["count"], g.get("mean")):
+                bad.append(("mean[%s][%s]@%s" % (ty, st, where), A.agg("total", e["total"], e["count"]) / e["count"], g.get("mean")))
             ew, gw = e.get("w"), g.get("w")
             if ew and ew["count"] > 0:                       # the second property, over the agents that have it
                 if gw is None:
                     bad.append(("property w[%s][%s]@%s is not aggregated" % (ty, st, where), ew, None))
                     continue
                 for k in ("total", "min", "max"):
-                    if not _close(float(ew[k]), gw[k]):
-                        bad.append(("w %s[%s][%s]@%s" % (k, ty, st, where), ew[k], gw[k]))
-                if ew["count"] == e["count"] and not _close(ew["total"] / ew["count"], gw.get("mean")):     # mean only when every agent of the cell has w
-                    bad.append(("w mean[%s][%s]@%s" % (ty, st, where), ew["total"] / ew["count"], gw.get("mean")))
+                    if not _same(A.agg(k, ew[k], ew["count"]), gw[k]):
+                        bad.append(("w %s[%s][%s]@%s" % (k, ty, st, where), A.agg(k, ew[k], ew["count"]), gw[k]))
+                if ew["count"] == e["count"] and not _close(A.agg("total", ew["total"], ew["count"]) / ew["count"], gw.get("mean")):     # mean only when every agent of the cell has w
+                    bad.append(("w mean[%s][%s]@%s" % (ty, st, where), A.agg("total", ew["total"], ew["count"]) / ew["count"], gw.get("mean")))
             elif ew is not None and gw is not None:
                 bad.append(("property w[%s][%s]@%s aggregated although no agent has it" % (ty, st, where), None, gw))
     return bad
@@ -143,7 +150,7 @@ class Replayer:
             elif op == "SetState":
                 m.agent(h["id"]).state = h["st"]
             elif op == "SetVal":
-                m.agent(h["id"]).v = h["v"] / 2.0
+                m.agent(h["id"]).v = A.val(h["v"])
             elif op == "Send":
                 m.enqueue_event(m._make_event(h, None))
             elif op in ("Plan", "PlanBegin", "PlanDel", "PlanNew", "PlanSet", "PlanEnd"):
